@@ -1,5 +1,6 @@
 (** C18 - property theorems only.  The transition system is model/Mutex.v:
-    interleavings ([sched], any list of (thread, label)) of the atomic steps of ANY
+    interleavings ([sched], any list of (thread, label), including the member-level
+    fault step LRegrant = lease granted again) of the atomic steps of ANY
     number of threads ([cfg : tid -> thr], arbitrary) on ANY number of members over
     etcd modelled as a linearizable store whose lock keys are ordered by create
     revision.  All theorems are for the [ideal] quirks; [C18_refuted_local_per_handle]
@@ -100,6 +101,16 @@ Theorem C18_refuted_local_per_handle :
     run ideal cfg (init ([], 0)) sched = None.
 Proof. exact refuted_local_per_handle. Qed.
 Print Assumptions C18_refuted_local_per_handle.
+
+(** the lease re-grant step ([LRegrant], part of every schedule quantified above) must keep the member's
+    lock key: a variant that drops it (session replaced, old lease revoked) admits two holders *)
+Theorem C18_refuted_regrant_revokes :
+  exists cfg sched s,
+    run quirk_regrant_revokes cfg (init ([], 0)) sched = Some s /\
+    in_cs (pcs s 0%nat) = true /\ in_cs (pcs s 1%nat) = true /\
+    run ideal cfg (init ([], 0)) sched = None.
+Proof. exact refuted_regrant_revokes. Qed.
+Print Assumptions C18_refuted_regrant_revokes.
 
 (** non-vacuity: five threads on three members, interleaved; two successes (versions 8, 9),
     a 409, a 404, a timed-out Lock *)
